@@ -44,6 +44,23 @@ def sqrt_family():
     return out
 
 
+def equal_boxes_family():
+    """the same parametrised box twice in one circuit (on two wires, or on one wire separated by a gate that does not
+    commute with it): the product rule has one term per occurrence"""
+    from harness.checks.c13 import _mg
+
+    def P(k, c0, cx, cy):
+        return dict(_mg(k), par=1, pf={"c0": c0, "cx": cx, "cy": cy})
+    out = []
+    for k in ("Rx", "Ry", "Rz"):
+        for f in ((0, 1, 0), (1, 1, 1)):
+            g = P(k, *f)
+            out.append(({"ty": ["q", "q"], "layers": [{"g": g, "off": 0}, {"g": g, "off": 1}]}, "x", [1, 3]))
+            out.append(({"ty": ["q"], "layers": [{"g": g, "off": 0}, {"g": _mg("H"), "off": 0}, {"g": g, "off": 0}]}, "x", [2, 5]))
+            out.append(({"ty": ["q", "q"], "layers": [{"g": g, "off": 0}, {"g": g, "off": 1}, {"g": _mg("CX"), "off": 0}]}, "x", [7, 2]))
+    return out
+
+
 def VC():
     return {"MaxQ": 0, "MaxLayers": 0, "Phases": "<- PhasesQ", "MaxWeight": 0, "MaxMLayers": 0, "PMaxLayers": 0, "PMaxSteps": 0}
 
@@ -388,6 +405,7 @@ def run(tier, seed, t0):
         items = [(pc, rnd.choice(["x", "y"]), rnd.choice(POINTS), k % 3 == 0) for k, pc in enumerate(sample)]
         fam = sqrt_family()
         items += [(pc, v, pt, k % 4 == 0) for k, (pc, v, pt) in enumerate(fam if tier != "quick" else fam[::3])]
+        items += [(pc, v, pt, k % 3 == 0) for k, (pc, v, pt) in enumerate(equal_boxes_family())]
         with mp.get_context("fork").Pool(16) as pool:
             obs = pool.map(observe, items, chunksize=2)
         rows = [{"pc": pc, "v": v, "pt": pt} for pc, v, pt, _ in items]
